@@ -30,6 +30,8 @@ func main() {
 		runKver(r, n)
 	case "k4":
 		runK4(r, n, true)
+	case "kcs":
+		runKcs(r, n)
 	case "k19":
 		runK19(r, n)
 	case "k18":
